@@ -10,8 +10,8 @@ import (
 	"fmt"
 	"io"
 	"net/http"
-	"os"
 	"net/http/httptest"
+	"os"
 	"strings"
 	"sync/atomic"
 	"time"
@@ -207,9 +207,9 @@ func webIdlePart(w *vc.Writer, r *vc.Rand) {
 				for sent := 0; sent < 2; sent++ {
 					for _, kind := range [][2]bool{{true, true}, {true, false}, {false, true}, {false, false}} {
 						if how == 2 && !kind[0] && sent == 0 {
-						continue // a unary-request call contacts the target only once the request has arrived
-					}
-					res := webIdleCase(entry, how, sent, kind[0], kind[1])
+							continue // a unary-request call contacts the target only once the request has arrived
+						}
+						res := webIdleCase(entry, how, sent, kind[0], kind[1])
 						w.Case(vc.L{entry, how, sent, kind[0], kind[1]}, res, true)
 					}
 				}
